@@ -458,7 +458,9 @@ static void ls_calibrate(size_t pg)
                         lo = std::min(lo, i & ~(size_t)7);
                         hi = std::max(hi, (i | 7) + 1);
                 }
-        if (hi != 0 && g_ls_fault == 0) {
+        // (bytes that did change between an unlocked read and a later unlock were unmarked by the verification:
+        // they are violations, found again in the real runs, and must not decide the placement)
+        if (hi != 0) {
                 if (hi <= sizeof(struct cat_object) / 2) {
                         g_cal_mode = 1;
                         g_cal_split = hi;
